@@ -549,7 +549,9 @@ fn main() {
     quiet_panics();
     let mut r = Rng::new(a.seed, 20);
     let mut o = Out { lines: vec![], n: 0, kinds: Default::default(), max_leaves: 0, ops: 0, panics: 0, errs: 0, views: 0, tbl_entries: 0 };
-    let big = a.thorough() || a.search;
+    // --search (after something broke): a bounded, larger-than-quick budget with another seed
+    let big = a.thorough() && !a.search;
+    let bud = |q: usize, t: usize| if a.search { 2 * q } else if a.thorough() { t } else { q };
 
     known_finding_witnesses(&mut o, &mut r);
 
@@ -566,14 +568,14 @@ fn main() {
         }
     }
     cs_read_case(&mut o, &[]);
-    for _ in 0..a.budget(150, 5000) { cs_write_case(&mut o, counter(&mut r, true)); let n = r.below(11) as usize; let b = r.bytes(n); cs_read_case(&mut o, &b); }
+    for _ in 0..bud(150, 5000) { cs_write_case(&mut o, counter(&mut r, true)); let n = r.below(11) as usize; let b = r.bytes(n); cs_read_case(&mut o, &b); }
 
     // node / entry codecs
-    let nc = a.budget(40, 1500);
+    let nc = bud(40, 1500);
     codec_cases::<V1>(&mut o, &mut r, nc);
     codec_cases::<V2>(&mut o, &mut r, nc);
     codec_cases::<V3>(&mut o, &mut r, nc);
-    for _ in 0..a.budget(80, 1000) { let g = any_data(&mut r, 1); leaf_count_case(&mut o, &g); }
+    for _ in 0..bud(80, 1000) { let g = any_data(&mut r, 1); leaf_count_case(&mut o, &g); }
     for (s, e) in [(0u64, u64::MAX), (1, u64::MAX), (0, u64::MAX - 1), (5, 4), (u64::MAX, u64::MAX), (u64::MAX, 0), (0, 0), (7, 8), (4, 7), (0, 1 << 63)] {
         let mut g = any_data(&mut r, 1); g.sh = s; g.eh = e; leaf_count_case(&mut o, &g);
         let w = node_write_case::<V1>(&mut o, &g); node_read_case::<V1>(&mut o, g.bid, &w);
@@ -582,7 +584,7 @@ fn main() {
     }
 
     // combine: mostly fitting, some on the overflow boundary, some with different branch ids
-    for i in 0..a.budget(90, 3000) {
+    for i in 0..bud(90, 3000) {
         let ext = i % 3 == 0;
         macro_rules! go { ($v:ty, $k:expr) => {{
             let l = norm($k, leaf(&mut r, 3, 10, ext));
@@ -601,12 +603,12 @@ fn main() {
     catch(|| exhaustive_views::<V1>(&mut o, &mut r, ex, true));
     catch(|| exhaustive_views::<V2>(&mut o, &mut r, if big { ex } else { 17 }, ex <= 40));
     catch(|| exhaustive_views::<V3>(&mut o, &mut r, ex, big));
-    for i in 0..a.budget(24, 1500) {
+    for i in 0..bud(24, 1500) {
         let ext = i % 4 == 0;
         let m = 2 + r.below(22) as usize;
         match i % 3 { 0 => { catch(|| history::<V1>(&mut o, &mut r, true, m, ext, i % 2 == 0)); }, 1 => { catch(|| history::<V2>(&mut o, &mut r, true, m, ext, i % 2 == 0)); }, _ => { catch(|| history::<V3>(&mut o, &mut r, true, m, ext, i % 2 == 0)); } }
     }
-    for i in 0..a.budget(3, 300) {
+    for i in 0..bud(3, 300) {
         let m = if big { *r.pick(&[70usize, 130, 260, 300, 520]) } else { [300usize, 130, 70][i % 3] };
         match i % 3 { 0 => { catch(|| history::<V1>(&mut o, &mut r, false, m, false, false)); }, 1 => { catch(|| history::<V2>(&mut o, &mut r, false, m, false, false)); }, _ => { catch(|| history::<V3>(&mut o, &mut r, false, m, i % 2 == 0, false)); } }
     }
